@@ -4,14 +4,25 @@ open ZnVerif.Properties.C09
 #print axioms throw_raises
 #print axioms break_is_signal
 #print axioms body_error_goes_to_handlers
+#print axioms handled_error_is_body_value
+#print axioms unhandled_error_leaves_body
+#print axioms loop_signal_becomes_exception
 #print axioms handler_matches_first_class
 #print axioms unmatched_propagates_unchanged
 #print axioms runtime_fault_is_catchable
 #print axioms non_exception_errors_pass
 #print axioms handler_this_is_exception
 #print axioms runHandlerA_run
+#print axioms handler_value_or_null_of_stack
+#print axioms handler_block_keeps_its_frame
 #print axioms handler_value_or_null
 #print axioms catch_restores_stack
+#print axioms stack_balanced_on_success
+#print axioms same_stack_means
+#print axioms loop_signal_stops_at_body
+#print axioms callee_signal_never_reaches_caller
+#print axioms loop_signal_raised_in_own_frame
+#print axioms module_follows_top_frame
 #print axioms catch_restores
 #print axioms function_converts_runtime_error
 #print axioms function_passes_other_errors
